@@ -425,4 +425,144 @@ theorem Negate_eq (t : Total) : @TaxTotalsSrc.Total_Negate faithfulOps (some t) 
       simp [CategoryTotal.negate]
   simp [Total.negate, Total.clone]
 
+/-! ## `Merge` for summaries of any shape: search loops with a found pointer -/
+
+/-- a loop that only updates its state, whatever the shape of its body -/
+theorem forList_eq_foldl {α β : Type} (f : α → β → ForInStep β) (g : β → α → β)
+    (h : ∀ x s, f x s = ForInStep.yield (g s x)) (l : List α) (init : β) :
+    forList f l init = l.foldl g init := by
+  have : f = fun x s => ForInStep.yield (g s x) := by funext x s; exact h x s
+  rw [this, forList_fold]
+
+/-- SEARCH LOOP WITH A FOUND POINTER: `for i, v := range l { if P v { p = v; break } }` from
+    `p = nil`: either nothing satisfies `P` and `p` stays nil, or `l = pre ++ m :: post` with `m` the
+    first element that satisfies `P`, `p = m` and the index is `pre.length` -/
+theorem forList_search {α : Type} (P : α → Prop) [DecidablePred P] (l : List α) (k : Nat) :
+    ((∀ x ∈ l, ¬ P x) ∧
+      forList (fun (p : α × Nat) (s : Option α × Option Nat) =>
+        if P p.1 then ForInStep.done (some p.1, some p.2) else ForInStep.yield (s.1, s.2)) (l.zipIdx k) (none, none)
+        = (none, none)) ∨
+    (∃ pre m post, l = pre ++ m :: post ∧ (∀ x ∈ pre, ¬ P x) ∧ P m ∧
+      forList (fun (p : α × Nat) (s : Option α × Option Nat) =>
+        if P p.1 then ForInStep.done (some p.1, some p.2) else ForInStep.yield (s.1, s.2)) (l.zipIdx k) (none, none)
+        = (some m, some (k + pre.length))) := by
+  induction l generalizing k with
+  | nil => left; exact ⟨by simp, rfl⟩
+  | cons a l ih =>
+    by_cases ha : P a
+    · right; exact ⟨[], a, l, rfl, by simp, ha, by simp [List.zipIdx_cons, forList, ha]⟩
+    · rcases ih (k + 1) with ⟨hno, hs⟩ | ⟨pre, m, post, hl, hpre, hm, hs⟩
+      · left
+        refine ⟨by intro x hx; rcases List.mem_cons.mp hx with rfl | hx; exact ha; exact hno x hx, ?_⟩
+        simp only [List.zipIdx_cons, forList, ha, if_false]; exact hs
+      · right
+        refine ⟨a :: pre, m, post, by simp [hl], ?_, hm, ?_⟩
+        · intro x hx; rcases List.mem_cons.mp hx with rfl | hx; exact ha; exact hpre x hx
+        · simp only [List.zipIdx_cons, forList, ha, if_false]; rw [hs]; simp; omega
+
+theorem mergeRate_none (l : List RateTotal) (rt : RateTotal) (h : ∀ x ∈ l, ¬ (x.matches rt = true)) :
+    mergeRate l rt = l ++ [rt] := by
+  induction l with
+  | nil => rfl
+  | cons a l ih =>
+    have ha : a.matches rt = false := by simpa using h a (by simp)
+    simp [mergeRate, ha, ih (fun x hx => h x (by simp [hx]))]
+
+theorem mergeRate_found (pre post : List RateTotal) (m rt : RateTotal) (h : ∀ x ∈ pre, ¬ (x.matches rt = true))
+    (hm : m.matches rt = true) : mergeRate (pre ++ m :: post) rt = pre ++ m.absorb rt :: post := by
+  induction pre with
+  | nil => simp [mergeRate, hm]
+  | cons a l ih =>
+    have ha : a.matches rt = false := by simpa using h a (by simp)
+    simp [mergeRate, ha, ih (fun x hx => h x (by simp [hx]))]
+
+theorem mergeCategory_none (l : List CategoryTotal) (ct : CategoryTotal) (h : ∀ x ∈ l, ¬ (x.code = ct.code)) :
+    mergeCategory l ct = l ++ [ct] := by
+  induction l with
+  | nil => rfl
+  | cons a l ih =>
+    have ha : ¬ a.code = ct.code := h a (by simp)
+    simp [mergeCategory, ha, ih (fun x hx => h x (by simp [hx]))]
+
+theorem mergeCategory_found (pre post : List CategoryTotal) (m ct : CategoryTotal) (h : ∀ x ∈ pre, ¬ (x.code = ct.code))
+    (hm : m.code = ct.code) : mergeCategory (pre ++ m :: post) ct = pre ++ m.absorb ct :: post := by
+  induction pre with
+  | nil => simp [mergeCategory, hm]
+  | cons a l ih =>
+    have ha : ¬ a.code = ct.code := h a (by simp)
+    simp [mergeCategory, ha, ih (fun x hx => h x (by simp [hx]))]
+
+theorem append_rates_fold (n : Total) (c : CategoryTotal) (l : List RateTotal) :
+    List.foldl (fun (s : Total × Option CategoryTotal) (x : RateTotal) =>
+      (s.fst, some ({ s.snd.get! with rates := s.snd.get!.rates ++ [x] } : CategoryTotal))) (n, some c) l
+    = (n, some { c with rates := c.rates ++ l }) := by
+  induction l generalizing c with
+  | nil => simp
+  | cons a l ih => simp [ih]
+
+/-- one round of the loop over the second operand's rates in the `else` branch of `Merge`, on the
+    state (result so far, found category): the category's rates take the rate in (`mergeRate`), and the
+    category is written back at its place `j` -/
+def mergeRateStep (j : Nat) (s : Total × Option CategoryTotal) (rt : RateTotal) : Total × Option CategoryTotal :=
+  (⟨s.1.categories.set j { s.2.get! with rates := mergeRate s.2.get!.rates rt }, s.1.sum, s.1.sumP⟩,
+    some { s.2.get! with rates := mergeRate s.2.get!.rates rt })
+
+theorem mergeRateStep_fold (j : Nat) (n : Total) (c : CategoryTotal) (l : List RateTotal) :
+    (l.foldl (mergeRateStep j) (⟨n.categories.set j c, n.sum, n.sumP⟩, some c)).1 =
+      ⟨n.categories.set j { c with rates := mergeRates c.rates l }, n.sum, n.sumP⟩ := by
+  have h3 := (foldl_shadow (N := Total) (C := Option CategoryTotal)
+    (fun n oc => ⟨n.categories.set j oc.get!, n.sum, n.sumP⟩) (by intro n a b; simp [List.set_set])
+    (fun oc rt => some { oc.get! with rates := mergeRate oc.get!.rates rt }) (mergeRateStep j)
+    (by intro n c x; rfl) l n (some c)).2.2
+  have hc := foldl_comm (fun rs => some ({ c with rates := rs } : CategoryTotal))
+    (fun (oc : Option CategoryTotal) rt => some { oc.get! with rates := mergeRate oc.get!.rates rt }) mergeRate
+    (by intro d x; rfl) l c.rates
+  simp only [Option.get!_some] at h3
+  rw [h3]
+  have hc' : List.foldl (fun (oc : Option CategoryTotal) rt => some { oc.get! with rates := mergeRate oc.get!.rates rt }) (some c) l
+      = some { c with rates := mergeRates c.rates l } := hc
+  rw [hc']; rfl
+
+theorem Merge_eq (t t2 : Total) : @TaxTotalsSrc.Total_Merge faithfulOps (some t) t2 = some (t.merge t2) := by
+  unfold TaxTotalsSrc.Total_Merge
+  rw [Clone_eq]
+  simp only [forIn_list_id, pure_bind]
+  simp only [Id.run, id_pure, ite_yield_id, forList_fold, Option.get!_some, f_add, clone_eq, Matches_eq]
+  rw [forList_eq_foldl _ (fun (nt : Total) ct => { nt with categories := mergeCategory nt.categories ct }) ?h]
+  case h =>
+    intro ct nt
+    rcases forList_search (fun (m : CategoryTotal) => m.code = ct.code) nt.categories 0 with
+      ⟨hno, hs⟩ | ⟨pre, m, post, hl, hpre, hm, hs⟩
+    · simp only [hs, Option.isNone_none, if_true, append_rates_fold]
+      rw [mergeCategory_none _ _ hno]
+      rcases ct with ⟨cd, ret, rs, am, su, ap⟩
+      cases su <;> simp
+    · simp only [hs, Option.isNone_some, Bool.false_eq_true, if_false, Option.get!_some, Nat.zero_add]
+      rcases ct with ⟨cd, ret, rs, am, su, ap⟩
+      rcases m with ⟨mcd, mret, mrs, mam, msu, map⟩
+      cases su <;> cases msu <;>
+      · simp only [Option.isSome_none, Option.isSome_some, Bool.false_eq_true, if_false, if_true, Option.get!_some]
+        rw [forList_eq_foldl _ (mergeRateStep pre.length) ?hb]
+        case hb =>
+          intro rt s
+          rcases forList_search (fun (m : RateTotal) => m.matches rt = true) s.snd.get!.rates 0 with
+            ⟨hno, hs⟩ | ⟨rpre, rm, rpost, hl, hpre, hm, hs⟩
+          · simp only [hs, Option.isNone_none, if_true, mergeRateStep]
+            rw [mergeRate_none _ _ hno]
+          · simp only [hs, Option.isNone_some, Bool.false_eq_true, if_false, Option.get!_some, Nat.zero_add]
+            simp only [List.set_set, mergeRateStep, hl, mergeRate_found rpre rpost rm rt hpre hm]
+            rcases rt with ⟨k1, c1, e1, b1, p1, rsu, a1⟩
+            rcases rm with ⟨k2, c2, e2, b2, p2, msu', a2⟩
+            cases rsu <;> cases msu' <;> simp [RateTotal.absorb]
+        try simp only [List.set_set]
+        rw [mergeRateStep_fold, hl, mergeCategory_found pre post _ _ hpre hm]
+        simp [CategoryTotal.absorb]
+  have hc := foldl_comm (fun cats => (⟨cats, t.sum, t.sumP⟩ : Total))
+    (fun (nt : Total) ct => { nt with categories := mergeCategory nt.categories ct }) mergeCategory
+    (by intro d x; rfl) t2.categories t.categories
+  have hc' : List.foldl (fun (nt : Total) ct => ({ nt with categories := mergeCategory nt.categories ct } : Total)) t t2.categories
+      = ⟨List.foldl mergeCategory t.categories t2.categories, t.sum, t.sumP⟩ := hc
+  rw [hc']
+  rfl
+
 end GoblVerif.Proofs.TaxTotalsSrc
